@@ -316,6 +316,18 @@ func Signed(args []string) {
 					r.Fail(map[string]string{"engine": "xml-signed", "kind": "publisher", "type": "manifest"}, rep,
 						"manifest signed with %s, then with %s: the publisher in the licence is not the second signer (CN=%s)", k1, k2, leaf.Subject.CommonName)
 				}
+				// publisherIdentity (name + hash of the issuer's key) is that of the second signer: the same element a first
+				// signature by that key carries
+				pidRe := regexp.MustCompile(`<publisherIdentity [^>]*>`)
+				fresh, fpath, ferr := sign("manifest", k2, digest, 4)
+				os.Remove(fpath)
+				if ferr == nil {
+					a, b2 := pidRe.FindString(string(second)), pidRe.FindString(string(fresh))
+					if a == "" || a != b2 {
+						r.Fail(map[string]string{"engine": "xml-signed", "kind": "publisher", "type": "manifest"}, rep,
+							"manifest signed with %s, then with %s: publisherIdentity is %q, a manifest signed by %s alone carries %q", k1, k2, a, k2, b2)
+					}
+				}
 				r.Count("manifests_resigned", 1)
 			}
 		}
